@@ -109,7 +109,30 @@ func PageSources() string {
 }
 
 func PageSource(source *gedcom.SourceNode) string {
-	return fmt.Sprintf("%s.html", source.Pointer())
+	return fmt.Sprintf("%s.html", sourceKey(source.Pointer()))
+}
+
+// sourceKey makes the pointer of a source safe to be used as a file name. A
+// pointer can contain any character (even a path separator). Letters, digits
+// and dashes are kept. Every other byte is written as an underscore followed by
+// two hexadecimal digits so that different pointers never share a key.
+func sourceKey(pointer string) string {
+	key := ""
+
+	for i := 0; i < len(pointer); i++ {
+		c := pointer[i]
+
+		switch {
+		case c >= 'a' && c <= 'z', c >= 'A' && c <= 'Z',
+			c >= '0' && c <= '9', c == '-':
+			key += string(c)
+
+		default:
+			key += fmt.Sprintf("_%02x", c)
+		}
+	}
+
+	return key
 }
 
 func PageStatistics() string {
